@@ -516,7 +516,22 @@ this program executes by construction require at least {}",
 fn template(r: &mut Rng, lazy: bool) -> (String, String, u64, &'static str) {
     let m = r.range(1, 40); // matches
     let src = pysrc::passes(m);
-    match r.below(7) {
+    match r.below(8) {
+        7 => {
+            // one attr statement whose single attribute is a shorthand expanding to A attributes
+            let a = r.range(2, 8);
+            let attrs: Vec<String> = (0..a).map(|i| format!("s{} = v", i)).collect();
+            let min = (m * (2 + a)) as u64 + if lazy { m as u64 } else { 0 };
+            (
+                format!(
+                    "attribute sh = v => {}\n\n(pass_statement) @_p\n{{\n  node n\n  attr (n) sh = 1\n}}\n",
+                    attrs.join(", ")
+                ),
+                src,
+                min,
+                "shorthand",
+            )
+        }
         0 => {
             // N simple statements per match
             let n = r.range(1, 8);
